@@ -22,6 +22,7 @@ sys.setrecursionlimit(20000)
 import rslex          # noqa: E402
 import rsparse        # noqa: E402
 import limbir         # noqa: E402
+import alggen         # noqa: E402
 from limbir import ItemSpec, TransErr   # noqa: E402
 
 CD = 'curve25519-dalek/src/'
@@ -116,7 +117,7 @@ CONST_SOURCES = [
 ]
 
 ALL_FILES = [F_FIELD64, F_FIELD32, F_SCALAR64, F_SCALAR32, F_CONST64, F_CONST32, F_AVX2, F_IFMA,
-             F_TOPCONST, F_SCALAR, F_EDCONST, F_X25519]
+             F_TOPCONST, F_SCALAR, F_EDCONST, F_X25519] + alggen.ALG_FILES
 
 HEADER = ('-- GENERATED by /verif/tools/rs2lean/rs2lean.py from the Rust sources -- DO NOT EDIT.\n'
           '-- Regenerated on every run; edits will be overwritten.\n')
@@ -693,6 +694,30 @@ def run(repo, outdir, quiet=False):
         if write_if_changed(p, '\n'.join(text)):
             written.append(p)
 
+    # field-level formulas (AlgIR)
+    alg_results = {}
+    try:
+        alg_consts, alg_const_notes = alggen.field_const_names(srcs)
+        alg_err = None
+    except TransErr as ex:
+        alg_consts, alg_const_notes, alg_err = [], [], str(ex)
+    for amod in alggen.ALG_MODULES:
+        rs = []
+        for spec in amod.items:
+            if alg_err is not None:
+                rs.append({'module': amod.name, 'name': spec.name, 'source': amod.files[0], 'status': 'failed',
+                           'message': alg_err, 'root': spec.fn, 'line': 0, 'n_in': None, 'n_out': None,
+                           'n_stmts': None, 'sha256': None, 'covers': [], 'covered_ids': [], 'notes': [],
+                           'note': spec.note, 'constants': []})
+            else:
+                rs.append(alggen.translate_alg_item(srcs, amod, spec, alg_consts, ITEM_ERRORS))
+        alg_results[amod.name] = rs
+        deep, sh = alggen.emit_modules(HEADER, amod, rs, alg_consts)
+        for fn_, txt in ((amod.name + '.lean', deep), (amod.name + 'Sh.lean', sh)):
+            p = os.path.join(outdir, fn_)
+            if write_if_changed(p, txt):
+                written.append(p)
+
     # constants
     const_manifest = {}
     ctext = [HEADER, 'namespace Dalek.Gen.Consts\n']
@@ -726,16 +751,26 @@ def run(repo, outdir, quiet=False):
         written.append(p)
 
     # All.lean
-    mods = [m.name for m in MODULES] + ['Consts']
+    mods = [m.name for m in MODULES] + ['Consts'] + [m.name for m in alggen.ALG_MODULES]
     alltext = HEADER + ''.join('import Dalek.Gen.%s\n' % m for m in mods)
     p = os.path.join(outdir, 'All.lean')
     if write_if_changed(p, alltext):
+        written.append(p)
+    shtext = HEADER + '-- shallow twins of the AlgIR items (these import Dalek.IR.Tactics, i.e. `Lean`)\n' \
+        + ''.join('import Dalek.Gen.%sSh\n' % m.name for m in alggen.ALG_MODULES)
+    p = os.path.join(outdir, 'AllSh.lean')
+    if write_if_changed(p, shtext):
         written.append(p)
 
     # manifest
     covered = set()
     for mod in MODULES:
         for r in results[mod.name]:
+            if r['status'] == 'ok':
+                for c in r.get('covered_ids', []):
+                    covered.add(c)
+    for amod in alggen.ALG_MODULES:
+        for r in alg_results[amod.name]:
             if r['status'] == 'ok':
                 for c in r.get('covered_ids', []):
                     covered.add(c)
@@ -756,6 +791,9 @@ def run(repo, outdir, quiet=False):
             if r.get('discarded_prelude_stmts'):
                 m['discarded_prelude_stmts'] = r['discarded_prelude_stmts']
             items_man.append(m)
+    for amod in alggen.ALG_MODULES:
+        for r in alg_results[amod.name]:
+            items_man.append(alggen.manifest_entry(r))
     uncovered = {}
     for rel in ALL_FILES:
         try:
@@ -772,9 +810,14 @@ def run(repo, outdir, quiet=False):
         'generator': 'rs2lean',
         'items': items_man,
         'constants': const_manifest,
+        'alg_const_names': alg_consts,
+        'alg_const_notes': alg_const_notes,
         'uncovered_fns': uncovered,
         'files': sorted(os.path.basename(x) for x in
-                        [m.name + '.lean' for m in MODULES] + ['Consts.lean', 'All.lean', 'gen_manifest.json']),
+                        [m.name + '.lean' for m in MODULES] + ['Consts.lean', 'All.lean', 'AllSh.lean',
+                                                               'gen_manifest.json']
+                        + [m.name + '.lean' for m in alggen.ALG_MODULES]
+                        + [m.name + 'Sh.lean' for m in alggen.ALG_MODULES]),
     }
     p = os.path.join(outdir, 'gen_manifest.json')
     if write_if_changed(p, json.dumps(manifest, indent=1, sort_keys=True) + '\n'):
@@ -786,12 +829,19 @@ def run(repo, outdir, quiet=False):
             if r['status'] != 'ok':
                 nfail += 1
                 sys.stderr.write('rs2lean: FAILED %s.%s: %s\n' % (r['module'], r['name'], r['message']))
+    nalg = 0
+    for amod in alggen.ALG_MODULES:
+        for r in alg_results[amod.name]:
+            nalg += 1
+            if r['status'] != 'ok':
+                nfail += 1
+                sys.stderr.write('rs2lean: FAILED %s.%s: %s\n' % (r['module'], r['name'], r['message']))
     for ns in sorted(const_manifest):
         cm = const_manifest[ns]
         if cm['status'] != 'ok':
             sys.stderr.write('rs2lean: FAILED constants %s: %s\n' % (ns, cm['message']))
     if not quiet:
-        total = sum(len(results[m.name]) for m in MODULES)
+        total = sum(len(results[m.name]) for m in MODULES) + nalg
         sys.stderr.write('rs2lean: %d/%d items ok, %d files (re)written\n' % (total - nfail, total, len(written)))
     return results, const_manifest, manifest
 
